@@ -5,9 +5,10 @@ CONSTANTS
   Links <- OneLinks
   Mode = "stable"
   P = 1
-  W = 2
+  W = 1
   Strict = FALSE
-  PortOps <- AllOps
+  PortOps <- NoOps
+  OpPorts <- NoOpPorts
   Fresh <- AnyFresh
   MaxChan = 1
   D = 0
